@@ -283,7 +283,7 @@ func c19Run(t *testing.T, r *vk.Reporter, id string, c *c19Case) (kind, detail s
 					kind, detail = name+"-held-below-rate", fmt.Sprintf("%s: a backlogged sender moved only %d bytes in %.2f virtual seconds at a configured rate of %d B/s", name, total, T, c.Rate)
 				}
 			}
-			if name == "tx" {
+			if name == "tx" && !c.Unordered { // (paced datagram sources are not backlogged: no lower bound there)
 				// server-side writers start when their stream is accepted (which itself waits for upload
 				// tokens), so tx is known to be backlogged only while some writer is inside its loop:
 				// every maximal interval covered by writer spans must move at least rate x length x 0.99
